@@ -447,20 +447,39 @@ def _multitask(ck, repo, nf):
     apps = stmt_calls(cfg, lambda c: isinstance(c.func, ast.Attribute) and dotted(c.func.value) == "self.buffers" and c.func.attr in ("append", "extend", "insert"))
     inits = [m for m in cfg.nodes if m.kind == "stmt" and isinstance(m.ast, ast.Assign) and dotted(m.ast.targets[0]) == "self.buffers"]
     aliased = []
+    def _members(v):
+        """[(element expr, repeated?)] of a list-valued expression, or None when its construction is not read."""
+        if isinstance(v, ast.List):
+            return [(e, False) for e in v.elts]
+        if isinstance(v, ast.ListComp) and len(v.generators) == 1:
+            return [(v.elt, True)]
+        if isinstance(v, ast.BinOp) and isinstance(v.op, ast.Add):
+            a_, b_ = _members(v.left), _members(v.right)
+            return None if a_ is None or b_ is None else a_ + b_
+        if isinstance(v, ast.BinOp) and isinstance(v.op, ast.Mult):
+            for side in (v.left, v.right):
+                ms = _members(side)
+                if ms is not None:
+                    return [(e, True) for e, _r in ms]
+            return None
+        if isinstance(v, ast.Call) and dotted(v.func) == "list" and len(v.args) == 1 and isinstance(v.args[0], (ast.GeneratorExp, ast.ListComp)):
+            return [(v.args[0].elt, True)]
+        return None
+
+    def _fresh(e):
+        return isinstance(e, ast.Call) and dotted(e.func) in ("copy.deepcopy", "deepcopy")
     for m in inits:
         v = m.ast.value
-        if isinstance(v, ast.BinOp) and isinstance(v.op, ast.Mult):
-            aliased.append(short(m.ast, 60))
-        elif isinstance(v, ast.List):
-            if sum(1 for e in v.elts if dotted(e) == rb) > 1:
-                aliased.append(short(m.ast, 60))
-        elif isinstance(v, ast.ListComp):
-            if dotted(v.elt) == rb:
-                aliased.append(short(m.ast, 60))
-            elif not (isinstance(v.elt, ast.Call) and dotted(v.elt.func) in ("copy.deepcopy", "deepcopy")):
-                raise AnalysisError(f"{cq}.__init__: member construction `{short(v, 60)}` not recognised")
-        else:
+        ms = _members(v)
+        if ms is None:
             raise AnalysisError(f"{cq}.__init__: member construction `{short(v, 60)}` not recognised")
+        bare = [(e, r_) for e, r_ in ms if dotted(e) == rb]
+        other = [e for e, r_ in ms if dotted(e) != rb and not _fresh(e)]
+        if other:
+            raise AnalysisError(f"{cq}.__init__: member construction `{short(v, 60)}` not recognised")
+        # the same object in two slots: a repeated bare element, or more than one bare occurrence (the caller's buffer may be one member)
+        if any(r_ for _e, r_ in bare) or len(bare) > 1:
+            aliased.append(short(m.ast, 60))
     for _, c in apps:
         a = c.args[-1] if c.args else None
         if dotted(a) == rb:
